@@ -5,7 +5,9 @@ context (vf/sched.py) with
   (1) EVERY fault vector in {ok, raise-before-touching, raise-after-updating}^k
       x EVERY assignment of the k items to w workers
   (2) EVERY single death: worker i exits (os._exit model, exit code 3) on the
-      j-th item it takes, for all (i, j) and all assignments - including systems
+      j-th item it takes, for all (i, j) and all assignments (also with exit status 1,
+      SIGKILL and SIGTERM instead of 3; and callbacks raising an exception that
+      carries no message) - including systems
       with more queue entries than the work queue holds (the filler is still
       blocked in put() when the worker dies) and a single worker (the last
       running worker dies)
@@ -48,7 +50,7 @@ def exec_raise(case):
         probs = [f"parallel_add did not return although only callbacks raised: "
                  f"{res['error'][0]}: {res['error'][1]}"]
     else:
-        must = [it for it in items if plan[it["id"]] == "ok"]
+        must = [it for it in items if plan[it["id"]] == "ok"]  # "bare"/"before": untouched
         may = [it for it in items if plan[it["id"]] in ("ok", "after")]
         recs = sum(it["ret"] for it in must)
         probs = P.check_outcome(ref, res["outcome"], res["objects"], must, may, recs)
@@ -59,18 +61,19 @@ def exec_raise(case):
 def exec_death(case):
     items = P.make_items(case["k"], case.get("salt", 0))
     names = tuple(case.get("names", NAMES))
+    code = case.get("code", 3)
     res = P.run_sim(items, case["w"], names, assign=case["assign"],
-                    kwargs={"die": (case["die_worker"], case["die_at"], "sim"), "state": {}},
+                    kwargs={"die": (case["die_worker"], case["die_at"], "sim", code), "state": {}},
                     want_objects=False, choices=case.get("choices", ()))
     if case["die_worker"] == -1:
-        died = 3 in res["worker_exit"].values()
+        died = code in res["worker_exit"].values()
     else:
-        died = res["worker_exit"].get(case["die_worker"]) == 3
+        died = res["worker_exit"].get(case["die_worker"]) == code
     probs = []
     if not died:
         return probs, res, False  # that worker never took a j-th item: nothing died
     if res["error"] is None:
-        probs.append(f"worker {case['die_worker']} died (exit code 3) on its item #{case['die_at']} "
+        probs.append(f"worker {case['die_worker']} died (exit code {code}) on its item #{case['die_at']} "
                      f"but parallel_add returned a result as if nothing happened")
     elif res["error"][0] in ("SimDeadlock", "SimHang"):
         probs.append(f"worker {case['die_worker']} died and parallel_add never terminates: "
@@ -97,12 +100,27 @@ def task(arg):
                     outcomes.add((o["cms"]["n_records"], o["cms"]["n_added"]))
                 if probs and len(out) < 3:
                     out.append((case, f"k={k} w={w} assign={list(assign)} faults={list(plan)}: {probs[0]}"))
-    else:
+    elif kind == "bare":
+        # exactly one item raises an exception that carries NO message
         for assign in itertools.product(range(w), repeat=k):
+            for bad in range(k):
+                plan = ["ok"] * k
+                plan[bad] = "bare"
+                case = dict(kind="raise", k=k, w=w, salt=salt, assign=list(assign), plan=plan)
+                probs, res = exec_raise(case)
+                n += 1
+                nt += 1
+                if probs and len(out) < 3:
+                    out.append((case, f"k={k} w={w} assign={list(assign)}, item {bad} raises an exception "
+                                      f"without a message: {probs[0]}"))
+    else:
+        codes = (3,) if kind == "death" else (1, -9, -15)
+        for assign in itertools.product(range(w), repeat=k):
+          for code in codes:
             for dw in range(w):
                 for at in range(1, k + 1):
                     case = dict(kind="death", k=k, w=w, salt=salt, assign=list(assign),
-                                die_worker=dw, die_at=at)
+                                die_worker=dw, die_at=at, code=code)
                     probs, res, died = exec_death(case)
                     n += 1
                     if died:
@@ -238,11 +256,15 @@ def run(rep):
                     ("death", 2, 1, salt),
                     # more entries than the work queue holds (3 per worker): the filler is still
                     # blocked in put() when the worker dies
-                    ("death", 5, 1, salt), ("death", 7, 2, salt)]
+                    ("death", 5, 1, salt), ("death", 7, 2, salt),
+                    # other ways to die: exit status 1, SIGKILL, SIGTERM
+                    ("codes", 3, 2, salt), ("bare", 3, 2, salt)]
         else:
             jobs = [("raise", 4, 2, salt), ("raise", 4, 3, salt), ("raise", 5, 2, salt),
                     ("raise", 3, 1, salt), ("death", 4, 3, salt), ("death", 5, 2, salt),
-                    ("death", 4, 2, salt), ("death", 3, 1, salt), ("raise", 5, 3, salt)]
+                    ("death", 4, 2, salt), ("death", 3, 1, salt), ("raise", 5, 3, salt),
+                    ("death", 5, 1, salt), ("death", 7, 2, salt), ("codes", 4, 2, salt),
+                    ("codes", 3, 3, salt), ("bare", 4, 2, salt), ("bare", 3, 3, salt)]
         res = run_tasks(__name__, "task", jobs)
         execs = 0
         for st, viol in res:
